@@ -139,6 +139,17 @@ Theorem C16_duplicate_variant_iff : forall rs, import_records rs = Err E_Duplica
 Proof. intros rs. split; [exact (import_dup rs)|intros [x H]; exact (dup_import rs x H)]. Qed.
 Print Assumptions C16_duplicate_variant_iff.
 
+(* the payload of NonBooleanCellValue (Model/Extra.v): this variant is produced exactly when a cell is reported, the
+   reported text is no Boolean spelling, and it is a cell of one of the records *)
+Theorem C16_bad_cell_reported : forall rs,
+  (import_records rs = Err E_NonBooleanCellValue <-> exists c, bad_cell_of_records rs = Some c) /\
+  (forall c, bad_cell_of_records rs = Some c -> string_to_bool c = None /\ exists r, In r rs /\ In c r).
+Proof.
+  intros rs. split; [split; [exact (bad_cell_complete rs)|intros [c H]; exact (proj1 (bad_cell_sound rs c H))]|].
+  intros c H. exact (proj2 (bad_cell_sound rs c H)).
+Qed.
+Print Assumptions C16_bad_cell_reported.
+
 Example C16_example :
   from_csv_string [98;44;97;44;114;13;10; 48;44;49;44;84;10; 34;49;34;44;49;44;102;97;108;115;101;10;10;
                    49;44;48;44;84;114;117;101;13; 48;44;48;44;70]%N
